@@ -12,10 +12,10 @@ CHECKS = {
     "C09": ("exploration", "runtime monitoring: differential oracle — conforming values and random local mutations of them (type level and representation level, directly and through dag-cbor(relaxed)/dag-json) are fed to typed builders; accept/reject, error-not-panic and the accepted value are compared with a reference conformance decision; a coverage-distilled corpus of DAG-CBOR inputs for twelve fixed type systems is replayed against the same reference",
             "Held on the inputs observed for the reflection binding; generated code runs the same monitor inside C13. Sampling.",
             "Trusted: lib/ref/schema ParseType/ParseRepr.", "DESIGN.md §2 C09"),
-    "C13": ("exploration", "runtime monitoring: per batch the generator in the working tree is run on freshly drawn type systems (every struct, map, list and union strategy it supports, optional/nullable fields, complex keys), the output is compiled with go build into a driver linked with the monitors, and the driver feeds the same conforming and mutated inputs, at type and representation level, to the generated prototypes and to bindnode prototypes of the same schema in lock-step: accept/reject, panic, type-level read-out, representation read-out and dag-cbor/dag-json bytes are compared; the C08 view monitor and the C09 conformance monitor run on the generated engine against the reference model as well",
+    "C13": ("exploration", "runtime monitoring: per batch the generator in the working tree is run on freshly drawn type systems (every struct, map, list and union strategy it supports, optional/nullable fields, complex keys), the output is compiled with go build into a driver linked with the monitors, and the driver feeds the same conforming and mutated inputs, at type and representation level, to the generated prototypes and to bindnode prototypes of the same schema in lock-step: accept/reject, panic, type-level read-out, representation read-out and dag-cbor/dag-json bytes are compared; the C08 view monitor and the C09 conformance monitor run on the generated engine against the reference model as well, as do the C01 typed read-back (incl. whole-value AssignNode from another implementation) and the C12 rejected-key monitors; a probe compiles the packages generated for structs of 63, 64 and 70 fields",
             "Held on the type systems and inputs observed: every generated package compiled, and the two engines agreed on everything compared, apart from two known findings (a tuple struct value with an absent optional before a present one, which has no representation, is improvised differently; the package generated for a struct with 64 or more fields does not compile). Sampling of type systems and inputs.",
             "Trusted: go build as the compile oracle; lib/ref/schema where the engines are judged against the reference and not only each other. Enums, Any and listpairs are outside the generator's feature set.", "DESIGN.md §2 C13"),
-    "C19": ("exploration", "runtime monitoring: differential oracle — an independent reflection walk between Go values and typed abstract values (lib/gobind) is compared with what bindnode exposes: read-out of Wrap(&v) at both levels vs the walk of v; walk of Unwrap(built node) vs what was assembled (type and representation builders); Marshal bytes vs the reference encoding of the representation and the walk of the freshly unmarshalled value (dag-cbor, dag-json; typed-nil bind form); integers outside the Go field's range must be refused by builders and Unmarshal; each case ends with a history of repeated/interleaved Wrap/Prototype/Unwrap/Marshal/Unmarshal calls with explicit and inferred schemas over bindings of this and earlier cases of the same process",
+    "C19": ("exploration", "runtime monitoring: differential oracle — an independent reflection walk between Go values and typed abstract values (lib/gobind) is compared with what bindnode exposes: read-out of Wrap(&v) at both levels vs the walk of v; walk of Unwrap(built node) vs what was assembled (type and representation builders); Marshal bytes vs the reference encoding of the representation and the walk of the freshly unmarshalled value (dag-cbor, dag-json; typed-nil bind form); integers outside the Go field's range must be refused by builders and Unmarshal; each case ends with a history of repeated/interleaved Wrap/Prototype/Unwrap/Marshal/Unmarshal calls with explicit and inferred schemas over bindings of this and earlier cases of the same process; the clone idiom n.Prototype().NewBuilder().AssignNode(n) with a structural shared-memory check of the built Go value against the source; a custom-converter family (bindnode options through Wrap, builders reused through Reset, Marshal/Unmarshal)",
             "Held on the bindings, values and histories observed (Go types drawn by reflection for random type systems over all documented shapes, a declared library of named types, and inferable types), apart from one known finding (a uint64 member above MaxInt64 inside a kinded union cannot be marshalled). Sampling.",
             "Trusted: lib/gobind walkers, lib/ref/schema, lib/ref/cbor. Nilable-without-pointer only for struct fields (documented); float32 fields get float32-representable values; dag-json skipped for floats and integers above MaxInt64.", "DESIGN.md §2 C19"),
     "C16": ("exploration", "runtime monitoring: model-based monitor of transform sequences — each FocusedTransform result, callback argument, error outcome, set of blocks written and the graph reloaded from the new root are compared with a reference functional update over the abstract graph; the input tree is re-read after every step; WalkTransforming results compared with the reference selector walk's matches on link-free trees; a probe records the walking transform across a link; the walking transform under link controls (visit-once, skipping loader) must keep the input's skeleton; callback errors must surface",
@@ -27,10 +27,10 @@ CHECKS = {
     "C14": ("exploration", "runtime monitoring: during walks every visited (path, node) is resolved back from the root three ways (Get, Focus, stepwise LookupBySegment with link loading) and compared with the visited node and with a reference resolver over the abstract graph; paths are kept beyond the callback and resolved again after the walk; all positions enumerated from the nodes' own keys/indices; perturbed (partially existing, near-numeric) paths must fail exactly when the reference says so; String/ParsePath round trip; WalkLocal visits; a coverage-distilled corpus of path texts",
             "Held on the graphs, walks and paths observed. Sampling of graphs; per graph all positions (capped at 400) and all visits are checked.",
             "Trusted: the reference resolver in lib/props/c14.go, lib/obs.", "DESIGN.md §2 C14"),
-    "C15": ("exploration", "runtime monitoring with a metamorphic oracle: restricted walks (every node budget 0..|U|+2, every link budget 0..|L|+1, start-at every visited path, visit-links-once, loader skip sets) compared with the implementation's own unrestricted visit and load sequences recorded at the callback and storage boundaries; the local walk compared with the harness's enumeration of positions under every node budget and with SkipMe from the callback; the transforming walk's loads under visit-links-once",
+    "C15": ("exploration", "runtime monitoring with a metamorphic oracle: restricted walks (every node budget 0..|U|+2, every link budget 0..|L|+1, start-at every visited path, visit-links-once, loader skip sets) compared with the implementation's own unrestricted visit and load sequences recorded at the callback and storage boundaries; the transforming walk under every link budget against its own unrestricted load sequence; the local walk compared with the harness's enumeration of positions under every node budget and with SkipMe from the callback; the transforming walk's loads under visit-links-once",
             "Held on the (graph, selector) pairs observed; per pair the budget and start-at spaces are enumerated completely (sampled for walks longer than 40-60 visits).",
             "Trusted: nothing beyond the unrestricted walk being deterministic (checked). No preloader.", "DESIGN.md §2 C15"),
-    "C20": ("exploration", "sanitizer + result monitor: Go race detector build; goroutines run seeded read-only operations on one pool of shared nodes, selectors, prototypes, type systems, registry, link system and traversal config, in warm mode (sequential reference digests first) and cold mode (first use is concurrent); per-goroutine result digests compared with sequential ones; race logs de-duplicated by innermost library frames; overlap table shows which operation pairs were in flight together; link systems over memstore and over a pre-filled fsstore; a separate process for first-time schema inference under readers and for eight goroutines binding the same not-yet-inferred types at once; a freshly generated type system bound by all goroutines at once",
+    "C20": ("exploration", "sanitizer + result monitor: Go race detector build; goroutines run seeded read-only operations on one pool of shared nodes, selectors, prototypes, type systems, registry, link system and traversal config, in warm mode (sequential reference digests first) and cold mode (first use is concurrent); per-goroutine result digests compared with sequential ones; race logs de-duplicated by innermost library frames; overlap table shows which operation pairs were in flight together; link systems over memstore and over a pre-filled fsstore; a separate process for first-time schema inference under readers and for eight goroutines binding the same not-yet-inferred types at once; a freshly generated type system bound by all goroutines at once; in cold mode the first use of every walk/load/bind/build operation is made by all goroutines together (spinning barrier)",
             "Held on the schedules observed apart from one known finding (first-time schema inference writes the process-wide bindnode type system while readers use it). Absence of a race report is not absence of a race.",
             "Trusted: the race detector. Stream-backed bytes nodes share the caller's reader and are not read concurrently.", "DESIGN.md §2 C20"),
     "C18": ("fault_enumeration", "runtime monitoring with crash and fault injection from outside the process: strace enumerates the file-system syscalls of each write scenario and injects SIGKILL (crash point) or an errno before every one of them; a fresh verifier process classifies the directory afterwards; concurrent reader/writer histories recorded at the client boundary and checked with porcupine (write-once register per key) in the race-detector build; fault-then-crash enumeration on the path a fault opens; random-instant SIGKILL of a child with six concurrently writing goroutines; puts under contexts cancelled at their n-th consultation; keys given two contents by concurrent writers (every read is one of them in full); several Store values on one directory with harness-interleaved streams",
@@ -45,19 +45,19 @@ CHECKS = {
     "C04": ("exploration", "runtime monitoring: differential oracle — the encoder's output is read by an independent DAG-JSON reader (encoding/json token stream + reserved-form rules) and by the library decoder, both compared with the abstract value; encodings compared across insertion orders and implementations; failed decodes and failed encodes interleaved; values denoted by a coverage-distilled corpus of DAG-JSON texts get the same monitors",
             "Held on the executions observed apart from two known findings with one cause in the pinned dependency refmt (integral floats are written without '.' and so change kind or stop decoding). Sampling with boundary bias.",
             "Trusted: encoding/json as tokenizer, go-cid for the CID string form, lib/ref/json.", "DESIGN.md §2 C04"),
-    "C12": ("exploration", "runtime monitoring: model-based monitor of assembler call sequences — generated legal sequences with the two pinned rejections (repeated key in three call forms; unacceptable kind) injected at random positions, outcome class per call and read-out of Build() checked against a sequential model of the contract; Reset/reuse sequences",
+    "C12": ("exploration", "runtime monitoring: model-based monitor of assembler call sequences — generated legal sequences with the two pinned rejections (repeated key in three call forms; unacceptable kind) injected at random positions, outcome class per call and read-out of Build() checked against a sequential model of the contract; Reset/reuse sequences; scalars delivered as finished nodes through AssignNode; a typed family over random type systems (typed maps incl. recursively assembled struct keys, struct fields, and a second entry offered to unions)",
             "Held on the sequences observed for basicnode, bindnode (struct, typed maps, renamed representation, Any map; type and representation level) and the checked-in generated code. Freshly generated code is exercised by C13.",
             "Trusted: the sequential contract model in lib/props/c12.go and lib/obs. Misuse orders are never generated.", "DESIGN.md §2 C12"),
-    "C11": ("exploration", "runtime monitoring: snapshot-and-reread monitor — every tracked node (generic, decoded, loaded, matched, transformed, and typed bindnode nodes with inferred and user-supplied Go types) is read out in full right after production and again after each step of a generated history of later library operations (builder reset/reuse, assign-and-extend incl. builders of the node's own prototype that are then used further, transforms, walks, subset matches, further loads and decodes)",
+    "C11": ("exploration", "runtime monitoring: snapshot-and-reread monitor — every tracked node (generic, decoded, loaded, matched, transformed, and typed bindnode nodes with inferred and user-supplied Go types) is read out in full right after production and again after each step of a generated history of later library operations (builder reset/reuse, assign-and-extend incl. builders of the node's own prototype that are then used further, transforms, walks, subset matches, further loads and decodes; a storage that serves every block out of one buffer it reuses); the checked-in generated code is a producer too",
             "Held on the histories observed: no tracked node from any producer changed its read-out, and no accessor disagreed with itself on a second read. Sampling of producers and histories.",
             "Trusted: lib/obs read-out monitor. Callers writing into slices they own are excluded as the property states.", "DESIGN.md §2 C11"),
-    "C05": ("exploration", "runtime monitoring: histories of store/compute/load operations checked online against a sequential model (write-once map) with reference links (stdlib digests, hand-built CIDs) over reference block bytes",
+    "C05": ("exploration", "runtime monitoring: histories of store/compute/load operations checked online against a sequential model (write-once map) with reference links (stdlib digests, hand-built CIDs) over reference block bytes; bursts of concurrent ComputeLink calls; a probe with unregistered codecs and hash functions",
             "Held on the histories observed: every Store/ComputeLink returned the reference link, storage held exactly the reference bytes, every load form returned the stored value and bytes, results handed out earlier did not change later. Sampling of histories and configurations.",
             "Trusted: lib/ref/link, lib/ref/cbor, stdlib crypto; for cbor/json/dag-json the expected bytes come from the codec's own direct Encode.", "DESIGN.md §2 C05"),
     "C06": ("fault_enumeration", "runtime monitoring with fault injection at the storage boundary: per stored block, exhaustive bit flips, truncations, read-error offsets, extensions, substitutions, chunkings, last-bytes-with-EOF reads and extended blocks arriving in pieces; writer/encoder failures (iterators and scalar accessors of a faulty node) on the store side with a recording committer; open and commit errors; loads into a prototype whose builder refuses the block; large blocks faulted at buffer boundaries",
             "For each corpus block every fault of the listed classes was injected into each of Load/LoadRaw/LoadPlusRaw/Fill and the outcome compared with an independent digest of the served bytes; exhaustive per block, sampling over blocks.",
             "Trusted: stdlib digests + lib/ref/link. (0,nil) reads are not part of the fault family (see DESIGN §5).", "DESIGN.md §2 C06"),
-    "C01": ("exploration", "runtime monitoring: read-out monitor (every accessor twice, both iterators, every lookup form, wrong-kind probes) over nodes built by randomly drawn legal build programs, compared with the abstract value; DeepEqual/Copy compared with model equality",
+    "C01": ("exploration", "runtime monitoring: read-out monitor (every accessor twice, both iterators, every lookup form, wrong-kind probes) over nodes built by randomly drawn legal build programs, compared with the abstract value; DeepEqual/Copy compared with model equality; one builder reused through Reset for two values; typed nodes (bindnode here, generated code inside C13) additionally receive the whole value as one node of another implementation through AssignNode and are rebuilt through their own Prototype() at both levels",
             "Held on the executions observed: every generated value built by several legal call sequences into basicnode (Any and kind prototypes) and bindnode Any-map/list bindings read back as exactly that value with no internal disagreement; typed bindnode nodes of random type systems (and generated code inside C13) answered every lookup form and every kind-inappropriate accessor consistently and without panicking. Sampling with boundary bias, not a proof.",
             "Trusted: lib/obs read-out monitor, lib/model. What typed views contain is decided by C08/C13.", "DESIGN.md §2 C01"),
     "C02": ("exploration", "runtime monitoring: differential oracle (independent canonical DAG-CBOR reference encoder) over generated values, all insertion orders of small maps, head-boundary sweep, interleaved failed encodes",
